@@ -42,7 +42,15 @@ struct Tabs {
 
 impl Tabs {
     fn new(n: usize) -> Self {
+        Self::with_limit(n, None)
+    }
+    /// `limit`: memory limit of the VM that owns the tables (set before anything is allocated): insertions that need
+    /// more are refused
+    fn with_limit(n: usize, limit: Option<usize>) -> Self {
         let mut vm = Vm::new(()).unwrap();
+        if let Some(l) = limit {
+            vm.runtime_data.set_memory_limit(l);
+        }
         let mut tabs = vec![];
         for _ in 0..n {
             let t = vm.init_table().unwrap();
@@ -137,14 +145,25 @@ pub fn drive(args: &[String]) {
         let mut rng = Rng::new(seed.wrapping_mul(1_000_003).wrapping_add(c as u64));
         let reset = json!({"op":"reset","t":1,"k":nil(),"v":nil(),"n":0});
         w.line(json!({"case": c, "op": reset, "ret": {"ok":true,"vs":[]}, "proj": []}));
-        let mut sut: Box<dyn Sut> = Box::new(Tabs::new(ntabs));
+        // every fourth case runs under a memory limit that refuses the growth of the tables after a few entries; keys and
+        // values are then restricted to those that need no allocation themselves
+        let limited = c % 4 == 3;
+        let mut sut: Box<dyn Sut> = Box::new(Tabs::with_limit(ntabs, if limited { Some(1400 + 100 * rng.below(8)) } else { None }));
         let mut lens = vec![0usize; ntabs];
         // a case prefers a small key set so that overwrites / removes of present keys are frequent
-        let nk = 3 + rng.below(keys.len() - 2);
+        let nk = if limited { keys.len() } else { 3 + rng.below(keys.len() - 2) };
         for _ in 0..len {
             let t = 1 + rng.below(usetabs);
-            let k = keys[rng.below(nk)].clone();
-            let v = rng.pick(&vals).clone();
+            let mut k = keys[rng.below(nk)].clone();
+            let mut v = rng.pick(&vals).clone();
+            if limited {
+                if k["t"] == "str" {
+                    k = int(20 + rng.below(30) as i64);
+                }
+                if v["t"] == "str" {
+                    v = int(rng.below(9) as i64);
+                }
+            }
             let op = match rng.below(16) {
                 0..=4 => json!({"op":"set","t":t,"k":k,"v":v,"n":0}),
                 5 => json!({"op":"get","t":t,"k":k,"v":nil(),"n":0}),
